@@ -5,7 +5,9 @@ from dlib import Q, Par, LEVELS, flat, crate
 RULE = ("every pub fn of the three polyvec copies on index-tagged vectors (component i filled with values encoding (i, position), "
         "pairwise different between components and neighbours, plus random and extreme-magnitude vectors); the oracle recomputes each "
         "result by calling the crate's polynomial-level operation on every component separately (and the matrix product as the sum of "
-        "pointwise products), so a skipped, repeated or transposed index shows. Non-trivial = every case; distinct (fn,copy,input).")
+        "pointwise products), so a skipped, repeated or transposed index shows; hint application also on sparse hint vectors (weight <= omega), vectors "
+        "with a component without hints and the all-zero vector; the matrix product and the row accumulation also into output buffers that are not "
+        "zero on entry. Non-trivial = every case; distinct (fn,copy,input).")
 ASSUMPTIONS = ["inputs sampled within the documented coefficient bounds"]
 TIMEOUT = {"quick": 400, "thorough": 2400}
 
@@ -40,6 +42,9 @@ def gen(tier, rng):
             v = tagged(L, rng, -9 * Q + 1, 9 * Q - 1, r)
             out.append(Case("matrix_pointwise", lv, [[x for row in mat for pl in row for x in pl], flat(v)], T))
             out.append(Case("l_pointwise_acc", lv, [flat(mat[0]), flat(v)], T))
+            # output buffers that are not zero on entry (second product into the same vector, reused scratch)
+            out.append(Case("matrix_pointwise_dirty", lv, [[x for row in mat for pl in row for x in pl], flat(v), flat(tagged(K, rng, -Q + 1, Q - 1, r + 3))], T + ["dirty-output"]))
+            out.append(Case("l_pointwise_acc_dirty", lv, [flat(mat[0]), flat(v), tagged(1, rng, -Q + 1, Q - 1, r + 5)[0]], T + ["dirty-output"]))
             b = rng.choice([p.g1 - p.beta, p.g2 - p.beta, p.g2])
             vv = tagged(L, rng, -b + 1, b - 1, r); kk = tagged(K, rng, -b + 1, b - 1, r)
             if r % 2:
@@ -50,6 +55,19 @@ def gen(tier, rng):
             out.append(Case("k_decompose", lv, [flat(std(K)), flat(dirty)], T))
             out.append(Case("k_make_hint", lv, [flat(tagged(K, rng, -2 * p.g2 + 1, 2 * p.g2 - 1, r)), flat(tagged(K, rng, 0, p.m - 1, r))], T))
             out.append(Case("k_use_hint", lv, [flat(std(K)), flat(tagged(K, rng, 0, 1, r))], T))
+            # realistic (sparse) hint vectors, incl. components without any hint and the all-zero vector
+            for kind in ("sparse", "empty-component", "all-zero", "single"):
+                hv = [[0] * 256 for _ in range(K)]
+                if kind == "sparse":
+                    for _ in range(p.omega): hv[rng.randrange(K)][rng.randrange(256)] = 1
+                elif kind == "empty-component":
+                    skip = rng.randrange(K)
+                    for _ in range(p.omega):
+                        i = rng.randrange(K)
+                        if i != skip: hv[i][rng.randrange(256)] = 1
+                elif kind == "single":
+                    hv[rng.randrange(K)][rng.randrange(256)] = 1
+                out.append(Case("k_use_hint", lv, [flat(std(K)), flat(hv)], T + ["hints-" + kind]))
             rbuf = bytes(rng.randrange(256) for _ in range(K * p.polyw1 + 5))
             out.append(Case("k_pack_w1", lv, [rbuf, flat(tagged(K, rng, 0, p.m - 1, r))], T))
             seed = bytes(rng.randrange(256) for _ in range(64))
@@ -135,7 +153,7 @@ def oracle(c, outs):
         exp = [x + y for x, y in zip(a, b)] if c.fn != "k_sub" else [x - y for x, y in zip(a, b)]
         if outs[0] != exp:
             return "%s is not the coefficient-wise sum/difference" % c.fn
-    if c.fn == "matrix_pointwise":
+    if c.fn in ("matrix_pointwise", "matrix_pointwise_dirty"):
         p = Par(c.copy)
         m = [int(x) for x in c.args[0][1:].split(",")]; v = [int(x) for x in c.args[1][1:].split(",")]
         R = (1 << 32) % Q
